@@ -11,6 +11,14 @@ def chk(pid, category, text, note, technique, design_ref, engine):
     CHECKS[pid] = dict(category=category, text=text, note=note, technique=technique, design_ref=design_ref, engine=engine)
 
 
+chk("C13", "exploration",
+    "Each server instance gets a sandbox (document root, a sibling whose name has the root as prefix, alias targets, outside areas, file/dir/absolute/nested symlinks in and out, FIFO, dot-files, HTML-special names; every file holds a "
+    "unique marker) and a configuration from check_symlink x listing x 0..2 aliases x sync/async; request paths built from 50 segment kinds with five percent-encoding styles (encoded separators, double encoding, NUL, non-UTF-8) go "
+    "over HTTP and verbatim PATH_INFO over SCGI; a marker from outside every configured root must never appear in any reply; listings only when enabled, without dot-files, HTML-escaped; canonical requests must be served from the "
+    "right root (alias /al must not capture /alx); no 5xx; ASan/UBSan on the server.",
+    "With check_symlink off containment is lexical as documented; strict root selection judged only on canonical-form requests.",
+    "runtime monitor: marker-containment oracle over generated hostile paths against a real server, ASan/UBSan", "DESIGN.md section 4 / C13", "vsrv")
+
 chk("C14", "exploration",
     "Both UTF-8 next-character decoders (cppcms plain/html, booster) are compared with an independent Table 3-7 reference on every byte window of "
     "length 1..3 and (thorough) all 2^32 windows of length 4 (quick: a boundary grid); whole-string validators, counters, booster utf_to_utf and "
